@@ -17,7 +17,10 @@ Transcription notes
   handlers order is preserved. The model delivers depth-first and synchronously; this is faithful exactly
   when every topic has at most one way in (direct collection XOR one publishing handler) — the driver
   rejects histories outside that class (the generator never produces them) and the class is recorded as an
-  assumption in checks/C09.json.
+  assumption in checks/C09.json. Under that hypothesis (plus forward-only publish edges) the model is PROVED equal
+  to the declarative chain semantics of Kap/Spec/C09Svc.lean (`svc_delivery_is_chain_semantics`); the diamond of
+  `single_entry_needed` shows where the two part ways without it.
+* the aggregate handler is modelled separately (content rule only): Kap/Model/C09Agg.lean.
 Core Lean only.
 -/
 import Kap.Model.C09
